@@ -17,7 +17,7 @@ int(max(np.ceil((stop - start) / step), 0))         `arangeNum` (`ceilDivInt`, `
 for i, bs in enumerate(chunks[0]): (offset, bs)     `linspaceOffsets` (elem_count recurrence; shared with linspace)
 chunk.arange_block(start, step, offset, size)       `arangeElem`, `arangeBlockG` (after `fix: da.arange computes every
                                                     element from its global index`): `first + idx*(second - first)`,
-                                                    index 1 stored as `second`; generic in the arithmetic (`Arith`):
+                                                    indices 0, 1 stored as `first`, `second`; generic in the arithmetic (`Arith`):
                                                     `intArith` here, binary64 in Model/CreationFloat.lean
 chunk.arange(blockstart, blockstop, step, bs)       `arangeBlocks`, `chunkArange` (`np.arange` then trim): the fallback of
                                                     `arange_block` for dtypes without index arithmetic (bool, datetime64)
@@ -75,9 +75,9 @@ structure Arith (α : Type) where
   /-- `idx.astype(comp)` -/
   ofIdx : Nat → α
 
-/-- element `i` of the array: `res = first + idx * (second - first)`; `res[1] = second` -/
+/-- element `i` of the array: `res = first + idx * (second - first)`; `res[0] = first`; `res[1] = second` -/
 def arangeElem {α} (A : Arith α) (first second : α) (i : Nat) : α :=
-  if i = 1 then second else A.add first (A.mul (A.ofIdx i) (A.sub second first))
+  if i = 0 then first else if i = 1 then second else A.add first (A.mul (A.ofIdx i) (A.sub second first))
 
 /-- `chunk.arange_block(start, step, offset, size)` with `first, second = start, start + step` (in `comp`) -/
 def arangeBlockG {α} (A : Arith α) (first second : α) (off size : Nat) : List α :=
